@@ -26,7 +26,7 @@ CONSTANTS
   Files,       \* Files[p] = [exists, dir, ext (format or "none"), content]
   Lib,         \* Lib[<<content, sel, to>>] = [ok, frames]   sel: format or "detect"; frames: units of output
   StdinContent,
-  MaxArgs,
+  ArgSet,      \* the argument vectors explored (sequences of token names)
   StdoutKinds  \* subset of {"pipe", "file", "tty", "full", "closed"}
 
 Fmts == {"json", "msgpack", "toml", "yaml"}
@@ -47,24 +47,26 @@ VARIABLES
   stderr,     \* "empty" | "usage" | "error" | "error_in"
   errInput,   \* index of the input named on stderr (0: none)
   exit,       \* -1 (running) | 0 | 1 | 2 | 13 (killed by SIGPIPE)
-  done        \* inputs completely translated: sequence of [path, sel]
+  done,       \* inputs completely translated: sequence of [path, sel]
+  budget,     \* the initial value of okWrites (never changes; identifies the scenario)
+  okWrites    \* stdout kinds "closed"/"full": write(2) calls that still succeed before the descriptor fails
 
-vars == <<argv, stdoutKind, i, raw, from, to, paths, phase, cur, stdinUsed, buffered, fd, outText, stderr, errInput, exit, done>>
-
-ArgVectors == UNION {[1..n -> Tokens] : n \in 0..MaxArgs}
+vars == <<argv, stdoutKind, i, raw, from, to, paths, phase, cur, stdinUsed, buffered, fd, outText, stderr, errInput, exit, done, okWrites, budget>>
 
 Init ==
-  /\ argv \in ArgVectors /\ stdoutKind \in StdoutKinds
+  /\ argv \in ArgSet /\ stdoutKind \in StdoutKinds
   /\ i = 1 /\ raw = FALSE /\ from = "none" /\ to = "none" /\ paths = <<>>
   /\ phase = "parse" /\ cur = 1 /\ stdinUsed = FALSE
   /\ buffered = <<>> /\ fd = <<>> /\ outText = "none" /\ stderr = "empty" /\ errInput = 0
   /\ exit = -1 /\ done = <<>>
+  /\ okWrites \in (IF stdoutKind \in {"closed", "full"} THEN 0..2 ELSE {0})
+  /\ budget = okWrites
 
 Finish(code, text, err, which) ==
   /\ exit' = code /\ phase' = "exited" /\ outText' = text /\ stderr' = err /\ errInput' = which
 
 \* exit 2: message + usage on stderr, nothing on stdout, nothing opened
-UsageError == Finish(2, "none", "usage", 0) /\ UNCHANGED <<argv, stdoutKind, i, raw, from, to, paths, cur, stdinUsed, buffered, fd, done>>
+UsageError == Finish(2, "none", "usage", 0) /\ UNCHANGED <<argv, stdoutKind, i, raw, from, to, paths, cur, stdinUsed, buffered, fd, done, okWrites, budget>>
 
 (***************************************************************************)
 (* Cli::parse_args: one step per lexopt item.                              *)
@@ -79,7 +81,7 @@ SetFormat(which, v, consumed) ==
   ELSE /\ from' = IF which = "f" THEN FormatNames[v] ELSE from
        /\ to' = IF which = "t" THEN FormatNames[v] ELSE to
        /\ i' = i + consumed
-       /\ UNCHANGED <<argv, stdoutKind, raw, paths, phase, cur, stdinUsed, buffered, fd, outText, stderr, errInput, exit, done>>
+       /\ UNCHANGED <<argv, stdoutKind, raw, paths, phase, cur, stdinUsed, buffered, fd, outText, stderr, errInput, exit, done, okWrites, budget>>
 
 ParseStep ==
   /\ phase = "parse" /\ i <= Len(argv)
@@ -87,17 +89,17 @@ ParseStep ==
      IF raw \/ tk.k = "value"
      THEN /\ paths' = Append(paths, IF tk.k = "value" THEN tk.path ELSE t)    \* after "--" every token is an operand
           /\ i' = i + 1
-          /\ UNCHANGED <<argv, stdoutKind, raw, from, to, phase, cur, stdinUsed, buffered, fd, outText, stderr, errInput, exit, done>>
+          /\ UNCHANGED <<argv, stdoutKind, raw, from, to, phase, cur, stdinUsed, buffered, fd, outText, stderr, errInput, exit, done, okWrites, budget>>
      ELSE CASE tk.k = "dashdash" ->
                  /\ raw' = TRUE /\ i' = i + 1
-                 /\ UNCHANGED <<argv, stdoutKind, from, to, paths, phase, cur, stdinUsed, buffered, fd, outText, stderr, errInput, exit, done>>
+                 /\ UNCHANGED <<argv, stdoutKind, from, to, paths, phase, cur, stdinUsed, buffered, fd, outText, stderr, errInput, exit, done, okWrites, budget>>
             [] tk.k = "long" ->
-                 IF tk.name = "help" THEN Finish(0, "longhelp", "empty", 0) /\ UNCHANGED <<argv, stdoutKind, i, raw, from, to, paths, cur, stdinUsed, buffered, fd, done>>
-                 ELSE IF tk.name = "version" THEN Finish(0, "version", "empty", 0) /\ UNCHANGED <<argv, stdoutKind, i, raw, from, to, paths, cur, stdinUsed, buffered, fd, done>>
+                 IF tk.name = "help" THEN Finish(0, "longhelp", "empty", 0) /\ UNCHANGED <<argv, stdoutKind, i, raw, from, to, paths, cur, stdinUsed, buffered, fd, done, okWrites, budget>>
+                 ELSE IF tk.name = "version" THEN Finish(0, "version", "empty", 0) /\ UNCHANGED <<argv, stdoutKind, i, raw, from, to, paths, cur, stdinUsed, buffered, fd, done, okWrites, budget>>
                  ELSE UsageError
             [] tk.k = "short" ->
-                 CASE tk.opt = "h" -> Finish(0, "help", "empty", 0) /\ UNCHANGED <<argv, stdoutKind, i, raw, from, to, paths, cur, stdinUsed, buffered, fd, done>>
-                   [] tk.opt = "V" -> Finish(0, "version", "empty", 0) /\ UNCHANGED <<argv, stdoutKind, i, raw, from, to, paths, cur, stdinUsed, buffered, fd, done>>
+                 CASE tk.opt = "h" -> Finish(0, "help", "empty", 0) /\ UNCHANGED <<argv, stdoutKind, i, raw, from, to, paths, cur, stdinUsed, buffered, fd, done, okWrites, budget>>
+                   [] tk.opt = "V" -> Finish(0, "version", "empty", 0) /\ UNCHANGED <<argv, stdoutKind, i, raw, from, to, paths, cur, stdinUsed, buffered, fd, done, okWrites, budget>>
                    [] tk.opt \in {"f", "t"} ->
                         IF tk.val # "" THEN SetFormat(tk.opt, tk.val, 1)
                         ELSE IF i + 1 > Len(argv) THEN UsageError               \* missing argument
@@ -109,15 +111,15 @@ ParseDone ==
   /\ to' = IF to = "none" THEN "json" ELSE to
   /\ paths' = IF paths = <<>> THEN <<"-">> ELSE paths
   /\ phase' = "guard"
-  /\ UNCHANGED <<argv, stdoutKind, i, raw, from, cur, stdinUsed, buffered, fd, outText, stderr, errInput, exit, done>>
+  /\ UNCHANGED <<argv, stdoutKind, i, raw, from, cur, stdinUsed, buffered, fd, outText, stderr, errInput, exit, done, okWrites, budget>>
 
 \* MessagePack is never written to a terminal
 Guard ==
   /\ phase = "guard"
   /\ IF stdoutKind = "tty" /\ to = "msgpack"
-     THEN Finish(1, "none", "error", 0) /\ UNCHANGED <<argv, stdoutKind, i, raw, from, to, paths, cur, stdinUsed, buffered, fd, done>>
+     THEN Finish(1, "none", "error", 0) /\ UNCHANGED <<argv, stdoutKind, i, raw, from, to, paths, cur, stdinUsed, buffered, fd, done, okWrites, budget>>
      ELSE /\ phase' = "loop"
-          /\ UNCHANGED <<argv, stdoutKind, i, raw, from, to, paths, cur, stdinUsed, buffered, fd, outText, stderr, errInput, exit, done>>
+          /\ UNCHANGED <<argv, stdoutKind, i, raw, from, to, paths, cur, stdinUsed, buffered, fd, outText, stderr, errInput, exit, done, okWrites, budget>>
 
 (***************************************************************************)
 (* The per-input loop.                                                     *)
@@ -133,7 +135,13 @@ LibRes(p) == Lib[<<Content(p), Sel(p), to>>]
 FramesOf(n, k) == [j \in 1..k |-> <<n, j>>]
 
 Bail(err, which) ==      \* xt_bail! / xt_bail_path!: message, process::exit(1) -- the BufWriter is NOT flushed
-  Finish(1, "none", err, which) /\ UNCHANGED <<argv, stdoutKind, i, raw, from, to, paths, cur, stdinUsed, buffered, fd, done>>
+  Finish(1, "none", err, which) /\ UNCHANGED <<argv, stdoutKind, i, raw, from, to, paths, cur, stdinUsed, buffered, fd, done, okWrites, budget>>
+
+\* What happens to one write(2) on standard output (pipecheck::Writer wraps every Write method).
+Failing == stdoutKind \in {"closed", "full"} /\ okWrites = 0
+\* EPIPE: restore SIG_DFL for SIGPIPE and raise it -- the process is killed, nothing is printed
+KilledBySigpipe ==
+  /\ exit' = 13 /\ phase' = "exited" /\ outText' = "none" /\ stderr' = "empty" /\ errInput' = 0
 
 ProcessInput ==
   /\ phase = "loop" /\ cur <= Len(paths)
@@ -142,27 +150,43 @@ ProcessInput ==
      ELSE IF IsStdin(p) /\ stdinUsed THEN Bail("error", 0)                        \* stdin at most once
      ELSE LET \* one Translator serves all inputs: a TOML target takes a single document, so once an
               \* input has been translated every further one fails before anything is written (C08)
-              r == IF to = "toml" /\ Len(done) >= 1 THEN [ok |-> FALSE, frames |-> 0] ELSE LibRes(p) IN
-          /\ stdinUsed' = (stdinUsed \/ IsStdin(p))
-          /\ buffered' = buffered \o FramesOf(cur, r.frames)                      \* whatever the library wrote
-          /\ IF r.ok
-             THEN /\ phase' = "flush"
-                  /\ UNCHANGED <<exit, outText, stderr, errInput>>
-             ELSE /\ exit' = 1 /\ phase' = "exited" /\ outText' = "none" /\ stderr' = "error_in" /\ errInput' = cur
-          /\ UNCHANGED <<argv, stdoutKind, i, raw, from, to, paths, cur, fd, done>>
+              r == IF to = "toml" /\ Len(done) >= 1 THEN [ok |-> FALSE, frames |-> 0] ELSE LibRes(p)
+              spills == r.frames >= 2             \* output larger than the 8 KiB BufWriter: write(2) during translation
+          IN /\ stdinUsed' = (stdinUsed \/ IsStdin(p))
+             /\ IF spills /\ Failing
+                THEN \* the write inside the serializer fails
+                     /\ IF stdoutKind = "closed" THEN KilledBySigpipe
+                        ELSE exit' = 1 /\ phase' = "exited" /\ outText' = "none" /\ stderr' = "error_in" /\ errInput' = cur
+                     /\ UNCHANGED <<buffered, fd, okWrites, budget>>
+                ELSE /\ IF spills
+                        THEN /\ fd' = fd \o buffered \o FramesOf(cur, r.frames - 1)
+                             /\ buffered' = <<<<cur, r.frames>>>>
+                             /\ okWrites' = IF okWrites > 0 THEN okWrites - 1 ELSE 0
+                        ELSE /\ buffered' = buffered \o FramesOf(cur, r.frames)   \* whatever the library wrote
+                             /\ UNCHANGED <<fd, okWrites, budget>>
+                     /\ IF r.ok
+                        THEN /\ phase' = "flush"
+                             /\ UNCHANGED <<exit, outText, stderr, errInput>>
+                        ELSE /\ exit' = 1 /\ phase' = "exited" /\ outText' = "none" /\ stderr' = "error_in" /\ errInput' = cur
+             /\ UNCHANGED <<argv, stdoutKind, i, raw, from, to, paths, cur, done, budget>>
 
 \* translator.flush() after every input
 FlushAfterInput ==
   /\ phase = "flush"
-  /\ fd' = fd \o buffered /\ buffered' = <<>>
-  /\ done' = Append(done, [path |-> paths[cur], sel |-> Sel(paths[cur])])
-  /\ cur' = cur + 1 /\ phase' = "loop"
-  /\ UNCHANGED <<argv, stdoutKind, i, raw, from, to, paths, stdinUsed, outText, stderr, errInput, exit>>
+  /\ IF buffered # <<>> /\ Failing
+     THEN /\ IF stdoutKind = "closed" THEN KilledBySigpipe
+             ELSE exit' = 1 /\ phase' = "exited" /\ outText' = "none" /\ stderr' = "error" /\ errInput' = 0   \* xt_bail!("{err}")
+          /\ UNCHANGED <<argv, stdoutKind, i, raw, from, to, paths, cur, stdinUsed, buffered, fd, done, okWrites, budget>>
+     ELSE /\ fd' = fd \o buffered /\ buffered' = <<>>
+          /\ okWrites' = IF buffered # <<>> /\ okWrites > 0 THEN okWrites - 1 ELSE okWrites
+          /\ done' = Append(done, [path |-> paths[cur], sel |-> Sel(paths[cur])])
+          /\ cur' = cur + 1 /\ phase' = "loop"
+          /\ UNCHANGED <<argv, stdoutKind, i, raw, from, to, paths, stdinUsed, outText, stderr, errInput, exit, budget>>
 
 ExitOk ==
   /\ phase = "loop" /\ cur > Len(paths)
   /\ exit' = 0 /\ phase' = "exited"
-  /\ UNCHANGED <<argv, stdoutKind, i, raw, from, to, paths, cur, stdinUsed, buffered, fd, outText, stderr, errInput, done>>
+  /\ UNCHANGED <<argv, stdoutKind, i, raw, from, to, paths, cur, stdinUsed, buffered, fd, outText, stderr, errInput, done, okWrites, budget>>
 
 Next == ParseStep \/ ParseDone \/ Guard \/ ProcessInput \/ FlushAfterInput \/ ExitOk
 Spec == Init /\ [][Next]_vars
@@ -178,15 +202,22 @@ TomlOnce == to = "toml" => Len(done) <= 1
 ExitZero == exit = 0 => (outText # "none" \/ (Len(done) = Len(paths) /\ phase = "exited"))
 ExitTwo == exit = 2 => (stderr = "usage" /\ fd = <<>> /\ outText = "none" /\ done = <<>> /\ ~stdinUsed)
 ExitOne == exit = 1 => (stderr \in {"error", "error_in"} /\ outText = "none")
+OnlyKnownExits == exit \in {-1, 0, 1, 2, 13}
 NamesInput == (exit = 1 /\ phase = "exited" /\ stderr = "error_in") => (errInput = cur /\ cur <= Len(paths))
 NoMsgpackOnTty == (stdoutKind = "tty" /\ to = "msgpack") => fd = <<>>
 HelpIsClean == outText # "none" => (exit = 0 /\ fd = <<>> /\ stderr = "empty")
 \* C14
 StdinOnce == Len(SelectSeq(done, LAMBDA d : d.path = "-")) <= 1
 \* C15
-Survives == exit # -1 => IsPrefix(AllFrames(1, Len(done)), fd)       \* finished inputs are on the descriptor
+Survives == (exit # -1 /\ stdoutKind \notin {"closed", "full"}) => IsPrefix(AllFrames(1, Len(done)), fd)       \* finished inputs are on the descriptor
 AllOut == exit = 0 /\ outText = "none" => (buffered = <<>> /\ fd = AllFrames(1, Len(paths)))
 OnlyData == \A k \in 1..Len(fd) : fd[k][1] <= Len(paths)
 
-CliInv == TomlOnce /\ ExitZero /\ ExitTwo /\ ExitOne /\ NamesInput /\ NoMsgpackOnTty /\ HelpIsClean /\ StdinOnce /\ Survives /\ AllOut /\ OnlyData
+\* C16
+SigpipeIsSilent == exit = 13 => (stdoutKind = "closed" /\ stderr = "empty" /\ outText = "none")
+NoSuccessWithLostOutput == (exit = 0 /\ outText = "none") => fd = AllFrames(1, Len(paths))
+OtherWriteErrorsAreReported == (stdoutKind = "full" /\ exit # -1 /\ outText = "none" /\ exit # 2) =>
+                                  (exit = 1 \/ fd = AllFrames(1, Len(paths)))
+BrokenPipeNeverAnErrorLine == (stdoutKind = "closed" /\ exit = 1) => (cur <= Len(paths))   \* exit 1 only for an input's own failure
+CliInv == OnlyKnownExits /\ SigpipeIsSilent /\ NoSuccessWithLostOutput /\ OtherWriteErrorsAreReported /\ BrokenPipeNeverAnErrorLine /\ TomlOnce /\ ExitZero /\ ExitTwo /\ ExitOne /\ NamesInput /\ NoMsgpackOnTty /\ HelpIsClean /\ StdinOnce /\ Survives /\ AllOut /\ OnlyData
 =============================================================================
